@@ -156,7 +156,7 @@ def traverse_graph_with_sampled_series(
     series: pd.Series,
     graph: nx.DiGraph,
     sample_size: int = 10,
-    state: dict = dict(),
+    state: Optional[dict] = None,
 ) -> Tuple[Sequence, List[T], dict]:
     """Depth First Search traversal with sampling. There should be at most one successor that contains the series.
 
@@ -170,6 +170,9 @@ def traverse_graph_with_sampled_series(
     Returns:
         The most uniquely specified node matching the series.
     """
+
+    if state is None:
+        state = dict()
 
     if (series.shape[0] < 1000) or (sample_size > series.shape[0]):
         return traverse_graph_with_series(base_type, series, graph, state=state)
